@@ -270,7 +270,8 @@ def _write_xml_element_to_file(file, xml_element, indent: str):
 
 
 def _write_xml_string_to_file(file, xml_string: str, indent: str):
-    result = textwrap.indent(xml_string, indent)
+    # only indent at "\n": textwrap.indent also splits at unicode line separators (e.g. U+2028) inside of text nodes
+    result = "\n".join(indent + line if line.strip() else line for line in xml_string.split("\n"))
     file.write(result.encode("utf-8"))
 
 
